@@ -35,6 +35,8 @@ func c19VSSText(k uint8) string {
 	switch k {
 	case 1, 2:
 		return fmt.Sprintf("BLACKOUT:sig%d", k)
+	case 6, 7, 8, 9:
+		return "BLACKOUT:sig1" // MID shapes: one entry, three entries, none, reversed order
 	case 3:
 		return "BLACKOUT"
 	case 4:
@@ -76,7 +78,21 @@ func mkDescriptor(v c19Val) scte35.SegmentationDescriptor {
 		a.SetUPID([]byte(c19VSSText(v.VSS)))
 		b.SetUPIDType(scte35.SegUPADSINFO)
 		b.SetUPID([]byte("comcast:linear:licenserotation"))
-		d.SetMID([]scte35.UPID{a, b})
+		entries := []scte35.UPID{a, b}
+		switch v.VSS {
+		case 6: // a MID of ONE entry (the ADI marker alone)
+			entries = entries[:1]
+		case 7: // three entries
+			c := scte35.CreateUPID()
+			c.SetUPIDType(scte35.SegUPIDADI)
+			c.SetUPID([]byte("SIGNAL:third"))
+			entries = append(entries, c)
+		case 8: // the MID type with no entry at all
+			entries = nil
+		case 9: // the two entries in the other order
+			entries = []scte35.UPID{b, a}
+		}
+		d.SetMID(entries)
 	}
 	sig.SetDescriptors([]scte35.SegmentationDescriptor{d})
 	return d
@@ -148,6 +164,28 @@ func mkDescriptorRetyped(v c19Val, from int, probe scte35.SegmentationDescriptor
 		d.SetSubSegmentNumber(v.SubNum)
 		d.SetSubSegmentsExpected(v.SubExp)
 	}
+	return d
+}
+
+// mkDescriptorIn appends a further descriptor with v's type, event id and numbers to the signal that already
+// carries `first` (two descriptors of ONE signal object; the signal time is the signal's).
+func mkDescriptorIn(first scte35.SegmentationDescriptor, v c19Val) scte35.SegmentationDescriptor {
+	sig := first.SCTE35()
+	d := scte35.CreateSegmentationDescriptor()
+	d.SetEventID(v.Event)
+	d.SetTypeID(scte35.SegDescType(v.Type))
+	d.SetIsDeliveryNotRestricted(true)
+	d.SetHasProgramSegmentation(true)
+	d.SetSegmentNumber(v.Num)
+	d.SetSegmentsExpected(v.Exp)
+	if v.Sub {
+		d.SetHasSubSegments(true)
+		d.SetSubSegmentNumber(v.SubNum)
+		d.SetSubSegmentsExpected(v.SubExp)
+	}
+	d.SetUPIDType(scte35.SegUPIDADI)
+	d.SetUPID([]byte("SIGNAL:twin")) // the twin differs in a field the relations do not look at
+	sig.SetDescriptors(append(sig.Descriptors(), d))
 	return d
 }
 
@@ -355,6 +393,28 @@ func c19CheckEqual(c c19EqCase) engine.Result {
 		if got := a.Equal(a); got != va.HasPTS {
 			res.Failf("Equal|reflexive-iff-pts", "%+v: Equal(self)=%v", va, got)
 		}
+		// two descriptors of ONE signal object: a twin with the same values, and neighbours that differ in one field
+		// (they share the signal time by construction); Equal and the closing relation judge them like any other pair
+		{
+			host := mkDescriptor(va)
+			variants := []c19Val{va, va, va, va}
+			variants[1].Event = va.Event + 1
+			variants[2].Num = va.Num + 1
+			variants[3].Type = va.Type ^ 0x01
+			for k, vb := range variants {
+				tw := mkDescriptorIn(host, vb)
+				res.Evals++
+				if got, want := host.Equal(tw), c19RefEqual(va, vb); got != want || tw.Equal(host) != want {
+					res.Failf("Equal|definition,two-descriptors-of-one-signal", "a=%+v b=%+v (variant %d) in one signal: Equal=%v/%v want %v", va, vb, k, got, tw.Equal(host), want)
+				}
+				if got, want := host.CanClose(tw), c19RefCanClose(va, vb); got != want {
+					res.Failf("CanClose|two-descriptors-of-one-signal", "incoming %+v open %+v in one signal: CanClose=%v want %v", va, vb, got, want)
+				}
+				if got, want := tw.CanClose(host), c19RefCanClose(vb, va); got != want {
+					res.Failf("CanClose|two-descriptors-of-one-signal", "incoming %+v open %+v in one signal: CanClose=%v want %v", vb, va, got, want)
+				}
+			}
+		}
 		for jj := 0; jj < 5*len(g.vals); jj++ {
 			j := jj % len(g.vals)
 			vb := g.vals[j]
@@ -541,7 +601,7 @@ func init() {
 			},
 			&engine.Enum[c19EqCase]{
 				Name: "equality",
-				Rule: "case = one descriptor of the 768-element equality grid (6 types x PTS {100,200,0,none,none in the command but PTS() 200} x event {1,2} x num {1,2} x expected {1,2} x sub-segment {absent,(1,1),(1,2),(2,2)}); Check compares it with every descriptor of four independent object copies of the grid (moved between signals; signal time carried by a non-zero pts_adjustment; retyped after queries from 0x10 / from 0x35) (symmetry, definition, reflexivity iff PTS), checks transitivity through every equal element and congruence against all 13824 descriptors of the closing grid in both argument positions",
+				Rule: "case = one descriptor of the 768-element equality grid (6 types x PTS {100,200,0,none,none in the command but PTS() 200} x event {1,2} x num {1,2} x expected {1,2} x sub-segment {absent,(1,1),(1,2),(2,2)}); Check first pairs it with further descriptors attached to its OWN signal object (a twin with the same values and three neighbours differing in event id, segment number or type: Equal and CanClose as for any other pair), then compares it with every descriptor of four independent object copies of the grid (moved between signals; signal time carried by a non-zero pts_adjustment; retyped after queries from 0x10 / from 0x35) (symmetry, definition, reflexivity iff PTS), checks transitivity through every equal element and congruence against all 13824 descriptors of the closing grid in both argument positions",
 				Gen: func(r *engine.Run, emit func(c19EqCase)) {
 					for i := range c19EqGrid().vals {
 						emit(c19EqCase{i})
